@@ -56,6 +56,10 @@ pub enum Ev {
     /// The scanners are `Send`: each of the next n calls on the main instance (feed, poll, reset)
     /// runs on another OS thread than the one before (a fresh thread per call; the caller waits).
     Hop { n: u8 },
+    /// A third-party message object whose getter `which` (0 status byte, 1 data byte 1, 2 data
+    /// byte 2) panics - a corrupt device buffer behind a checked accessor - is fed to the main
+    /// instance; the host catches the panic and carries on. No message was delivered.
+    FeedAbort { b: [u8; 3], which: u8 },
 }
 
 #[derive(Clone, Debug, PartialEq, Eq, Hash)]
@@ -110,6 +114,7 @@ impl Ev {
             Ev::Snapshot => J::arr([J::s("snapshot")]),
             Ev::Restore => J::arr([J::s("restore")]),
             Ev::Hop { n } => J::arr([J::s("hop"), ji(*n)]),
+            Ev::FeedAbort { b, which } => J::arr([J::s("feed_abort"), ji(b[0]), ji(b[1]), ji(b[2]), ji(*which)]),
             Ev::Fork { k, burst } => J::arr([
                 J::s("fork"),
                 ji(*k),
@@ -169,6 +174,7 @@ impl Ev {
             "snapshot" => Ev::Snapshot,
             "restore" => Ev::Restore,
             "hop" => Ev::Hop { n: n(1, 255)? as u8 },
+            "feed_abort" => Ev::FeedAbort { b: [n(1, 255)? as u8, n(2, 255)? as u8, n(3, 255)? as u8], which: n(4, 2)? as u8 },
             "fork" => {
                 let mut burst = Vec::new();
                 for b in a.get(2).and_then(|x| x.as_arr()).ok_or("fork: burst")? {
@@ -280,6 +286,13 @@ impl Trace {
                 Ev::Hop { n } => {
                     h.b(13);
                     h.b(*n);
+                }
+                Ev::FeedAbort { b, which } => {
+                    h.b(14);
+                    h.b(b[0]);
+                    h.b(b[1]);
+                    h.b(b[2]);
+                    h.b(*which);
                 }
                 Ev::Fork { k, burst } => {
                     h.b(8);
